@@ -358,7 +358,7 @@ func closedExpr(self func(string) bool, params []string, e *Expr) bool {
 		return member(e.X, params)
 	case 'C':
 		f := e.Sub[0]
-		return f.K == 'V' && self(f.X) && !member(f.X, params) && all(e.Sub[1:])
+		return f.K == 'V' && self(f.X) && !member(f.X, params) && f.X != "info" && all(e.Sub[1:])
 	case 'R', 'P', 'B', 'S', 'I':
 		return all(e.Sub)
 	case 'E':
